@@ -32,8 +32,8 @@ func main() {
 		}
 	}
 	_ = scale
-	if tier == "quick" || replay != "" {
-		// nothing to do: the plain harness covers the quick tier and all replays
+	if tier != "thorough" || replay != "" {
+		// nothing to do: the plain harness covers the quick tier, the search after a break and all replays
 		if err := os.WriteFile(out, nil, 0o644); err != nil {
 			fmt.Println(err)
 			os.Exit(2)
